@@ -52,6 +52,13 @@ func c07World(tp *Tape, env *Env) (*Plan, *Violation) {
 		prog = g.program()
 	}
 	g.ensureYieldingCycles(prog)
+	if len(prog.Nodes) > 0 && prog.Nodes[0].Title != "" && tp.Chance(8, "duptitle") {
+		// a later file opens with a node of the same title as the start node (loaders accept that): a name stands for
+		// the first node that carries it, at the start, in a jump and in a restore alike
+		dup := &Node{Title: prog.Nodes[0].Title, Body: []*Stmt{{K: sLine, Line: &LineS{Parts: []Part{{Text: "DUP the second node of that title"}}}}}}
+		prog.Nodes = append(prog.Nodes, dup)
+		env.St.probe("two_nodes_share_the_start_nodes_title")
+	}
 	if !cfg.NoDeclarePrelude && tp.Chance(6, "barestart") {
 		// the dialogue starts in a node WITHOUT a title, before any variable exists and before any node was left:
 		// a snapshot taken there is, field for field, the zero value - and a genuine snapshot all the same
